@@ -25,7 +25,7 @@ LINK_OPTS = {"p_remove": 0.12, "p_nonedge": 0.25, "p_pattern": 0.2, "linktypes":
 
 
 def plan(tier, seed):
-    n = 1500 if tier == "quick" else 40000
+    n = 4000 if tier == "quick" else 40000
     return [["links", i] for i in range(n)] + [["dangling", i] for i in range(n // 4)]
 
 
